@@ -543,7 +543,8 @@ def _gen_rej(ctx):
         cases.append({'stream': 'rej', 'kind': kind, 'shape': shape or [n], 'data': data, 'model': model, 'outmask': outmask, 'inmask': inmask,
                       'smode': smode, 's': s, 'lower': lower, 'upper': upper, 'maxdev': maxdev, 'sticky': sticky, 'grow': grow})
 
-    lims = {'lower': [None, 0.0, 1.5, 3.0], 'upper': [None, 0.0, 1.5, 3.0], 'maxdev': [None, 0.375, 3.0]}
+    # limits that residuals of the exact grid hit EXACTLY (1, 2, 4 sigma; deviations 0.25, 1, 2): 'exceeds' is strict
+    lims = {'lower': [None, 0.0, 1.5, 3.0, 1.0, 2.0, 4.0], 'upper': [None, 0.0, 1.5, 3.0, 1.0, 2.0, 4.0], 'maxdev': [None, 0.375, 3.0, 0.25, 1.0, 2.0]}
     combos = list(itertools.product(['sigma-scalar', 'sigma-array', 'invvar', 'none'], [0, 1, 2, 3], [False, True], [False, True], [False, True]))
     reps = ctx.n(8, 150)
     for smode, grow, hasin, hasout, sticky in combos:
